@@ -37,5 +37,7 @@ alias C01_reverb_never_faults := C13_reverb_never_faults
 alias C01_delay_line_nonempty := C14_delay_line_nonempty
 alias C01_each_frame_once := C02_each_frame_once
 alias C01_temp_buffers_clean := C02_temp_buffers_clean
+alias C01_real_effects_chunk_free_partial := C13_real_effects_chunk_free_partial
+alias C01_real_components_chunk_free_partial := C13_real_components_chunk_free_partial
 
 end K
